@@ -16,7 +16,9 @@ RULE = ("cases = scenarios (cfg line + steps) over the real client and server en
         "delivered to the client, injected duplicate/foreign frames, ids occupied/released by other flows; hand-written "
         "corpus for the 30 s boundary, three-attempt retries, connect errors, server-side expiry, no free id; every "
         "tenth random scenario uses MAX_CHANNEL in {2,3,4,6}; a scenario is non-trivial when at least two distinct "
-        "oracle events occurred; distinct = distinct (cfg, step list)")
+        "oracle events occurred; distinct = distinct (cfg, step list); every case runs the real code at a verbosity taken from the rotation "
+        "[0,0,3,0,2,0,13,1] shifted by the seed (13 = -vvv with a stderr whose write fails with EIO), stored in the "
+        "replay's cfg as v=N; the oracle does not depend on it; directed 0- and 1-byte datagrams in both directions")
 MANIFEST = dict(
     level_text=("Machine-checked Lean 4 theorems (core only) over a statement-by-statement model of ondns/dns_done/"
                 "expire_connections, Mux.next_channel, resolvconf_nameservers' line rule, DnsProxy.__init__/try_send/callback, "
